@@ -22,7 +22,10 @@ the command line says what must happen; each departure is a class of exactly one
        exit != 0, output byte-identical, nothing created
   C02  other cells without --seed-output: exit 0 and output == source
   C03  other cells with --seed-output: exit 0 and output == source
-  C06  on success the output length equals the source length (regular files)
+  C06  on success the output length equals the source length (regular files); over HTTP (fixed 4-byte chunk
+       archives, where a three-line model says which chunks the prior output and the seed hold) the bytes
+       requested beyond the header are exactly the stored bytes of the missing chunks, each once
+  C07  ... and they are requested as the maximal runs of adjacent missing chunks, in archive order
   C16  nothing but the output path is created, changed or removed in the directory
   C12  compress: the archive written equals the archive of the same source and options written to
        a fresh path (whatever was at the path before, file or stdin input, verbosity)
@@ -47,7 +50,8 @@ FACETS = {
     "C14": ("refusal-expected-but-exit-zero", "refused-but-output-changed", "refused-but-files-created"),
     "C02": ("valid-clone-failed", "success-with-wrong-output"),
     "C03": ("valid-in-place-clone-failed", "in-place-success-with-wrong-output"),
-    "C06": ("output-length-differs-from-source-length",),
+    "C06": ("output-length-differs-from-source-length", "grid-bytes-fetched-differ-from-missing-chunks"),
+    "C07": ("grid-requests-differ-from-maximal-runs",),
     "C16": ("path-other-than-output-touched",),
     "C12": ("archive-depends-on-history-input-kind-or-verbosity", "valid-compress-failed"),
     "C01": ("compress-clone-round-trip-differs", "round-trip-clone-failed"),
@@ -181,7 +185,7 @@ def clone_cells():
     return cells
 
 
-def run_clone_cell(bita, root, idx, cell, arch_paths, server, viol):
+def run_clone_cell(bita, root, idx, cell, arch_paths, server, viol, arch_bytes=None):
     name, _, kind = ARCHIVES[cell["archive"]]
     src = source_of(kind)
     d = os.path.join(root, f"k{idx}")
@@ -248,6 +252,67 @@ def run_clone_cell(bita, root, idx, cell, arch_paths, server, viol):
             if got is not None and len(got) != len(src):
                 viol.add("output-length-differs-from-source-length", detail)
     return "cloned"
+
+
+
+def header_len(ab):
+    """Length of the header of an archive (magic 6, dictionary size u64 LE, dictionary, offset u64, checksum 64)."""
+    return 6 + 8 + int.from_bytes(ab[6:14], "little") + 8 + 64
+
+
+def expected_runs(cell, kind, src, prior, seed_data, ab):
+    """Fixed 4-byte chunks: which stored chunks a clone must request, as maximal runs of adjacent missing
+    descriptors in archive order -> [(first_byte, last_byte)] (absolute offsets in the archive file)."""
+    have = set()
+    if "--seed-output" in cell["flags"] and prior:
+        have |= {prior[i:i + 4] for i in range(0, len(prior) - 3, 4)}
+    if cell["seed"] in ("file", "stdin"):
+        have |= {seed_data[i:i + 4] for i in range(0, len(seed_data) - 3, 4)}
+    order = []
+    for i in range(0, len(src), 4):
+        if src[i:i + 4] not in order:
+            order.append(src[i:i + 4])
+    h = header_len(ab)
+    data_off = int.from_bytes(ab[h - 72:h - 64], "little")
+    runs = []
+    for j, w in enumerate(order):
+        if w in have:
+            continue
+        a, b = data_off + 4 * j, data_off + 4 * j + 3
+        if runs and runs[-1][1] + 1 == a:
+            runs[-1] = (runs[-1][0], b)
+        else:
+            runs.append((a, b))
+    return h, runs
+
+
+def judge_requests(cell, idx, kind, src, prior, seed_data, ab, server, viol, detail):
+    h, want = expected_runs(cell, kind, src, prior, seed_data, ab)
+    got = []
+    for _, rng in server.requests_for(f"cell={idx:05d}"):
+        if not rng or not rng.startswith("bytes="):
+            got.append(("whole-file", rng))
+            continue
+        a, _, b = rng[6:].partition("-")
+        a, b = int(a), int(b) if b else len(ab) - 1
+        if b < h:
+            continue                      # header region
+        got.append((a, b))
+    if got == want:
+        return
+    d = dict(detail, requests_beyond_header=[list(g) for g in got[:12]], expected_runs=[list(w) for w in want[:12]])
+
+    def cover(rs):
+        c = []
+        for r in rs:
+            if r[0] == "whole-file":
+                return None
+            c += list(range(r[0], r[1] + 1))
+        return sorted(c)
+    if cover(got) != cover(want):
+        viol.add("grid-bytes-fetched-differ-from-missing-chunks", d)
+    else:
+        viol.add("grid-requests-differ-from-maximal-runs", d)
 
 
 # ------------------------------------------------------------------ compress grid
@@ -376,7 +441,7 @@ def grid(ctx, only_cell=None):
             def one(job):
                 kind, i, c = job
                 if kind == "clone":
-                    return kind, run_clone_cell(bita, root, i, c, arch_paths, server, viol)
+                    return kind, run_clone_cell(bita, root, i, c, arch_paths, server, viol, [files[f"{a[0]}.cba"] for a in ARCHIVES])
                 return kind, run_compress_cell(bita, root, i, c, refs, viol)
             with ThreadPoolExecutor(max_workers=min(16, os.cpu_count() or 4)) as ex:
                 for kind, o in ex.map(one, jobs):
